@@ -2030,6 +2030,22 @@ def c20_domain(text, m, opts):
     return trees
 
 
+def c20_noncanonical_output(out1, m):
+    """known finding F24: --canonicalize-roles rewrites the roles of the INPUT tree; the layout chosen
+    afterwards may write an edge inverted, and the inverted role may itself be a normalisation key
+    (:mod-of, :domain-of under AMR): the first output then contains a role that the second pass rewrites"""
+    try:
+        for t in penman.iterparse(out1):
+            for _, (role, _tgt) in t.walk():
+                r = role.partition('~')[0]
+                if (r != '/' and m.canonicalize_role(r) != r and r.endswith('-of')
+                        and m.canonicalize_role(r[:-3]) == r[:-3]):
+                    return True
+    except Exception:  # noqa: BLE001
+        return False
+    return False
+
+
 def c20_captures(trees, m, opts):
     """known finding F23: --make-variables gives some node a name that a constant of the same graph
     already has (reset_variables does not avoid the constants), so the constant is read as a
@@ -2143,6 +2159,8 @@ def c20_check(case, known=None):
             return 'KNOWN:F18'
         if opts.get('makeVariables') and c20_captures(trees, m, opts):
             return 'KNOWN:F23'
+        if opts.get('canonicalizeRoles') and c20_noncanonical_output(out1, m):
+            return 'KNOWN:F24'
         return f'not a fixed point: second pass gives {r2["out"]!r} from {out1!r}'
     # several FILE inputs: the run equals the runs of the single files, in order; fed back as ONE
     # stream the output is reproduced except for known finding F22 (no blank line at file boundaries)
